@@ -15,21 +15,53 @@ Definition layout_scan (archid base ip0 : Z) (l : list (Z * Z)) : regs * list Z 
 Definition layout_scan_wf (archid base : Z) (iv : Z -> bool) (l : list (Z * Z)) : bool :=
   scan_wf_layout (arch_of archid) iv base (specs_of l).
 
-(* technique per frame (round 5): the mixed CFI / scan builder of theorem c04_recovers_chain.
-   A spec is (technique: 0 = CFI, otherwise scan; fill words; return address). *)
+(* technique per frame (round 5): the mixed CFI / frame pointer / scan builder of theorem c04_recovers_chain.
+   A spec is (technique: 0 = CFI, 2 = frame pointer, otherwise scan; fill words; return address).  The last fill word of
+   a frame-pointer record is a placeholder: [mix_fix] writes the saved frame pointer there — the address of the saved
+   word of the next frame-pointer record when only CFI records lie between, 0 when a scan record comes first (or, at the
+   end of the stack, [term]: amd64 wants a readable stack address, the last word) — and [mix_need] of the whole stack
+   is the context's frame pointer. *)
 Definition mspecs_of (l : list (Z * list Z * Z)) : list mspec :=
-  map (fun x => {| ms_tech := if fst (fst x) =? 0 then TkCfi else TkScan; ms_fill := snd (fst x); ms_ra := snd x |}) l.
-
-(* (context registers, stack words, expected chain as (instr, resume, sp, trust code)) *)
-Definition layout_mix (archid base ip0 : Z) (gp0 : list Z) (l : list (Z * list Z * Z)) : regs * list Z * list (Z * Z * Z * Z) :=
+  map (fun x => {| ms_tech := if fst (fst x) =? 0 then TkCfi else if fst (fst x) =? 2 then TkFp else TkScan;
+                   ms_fill := snd (fst x); ms_ra := snd x |}) l.
+Fixpoint mix_need (a : arch) (base off term : Z) (fs : list mspec) : Z :=
+  match fs with
+  | [] => term
+  | f :: t => match ms_tech f with
+              | TkFp => base + a_pw a * (off + ms_len f - 1)
+              | TkScan => 0
+              | TkCfi => mix_need a base (off + ms_len f + 1) term t
+              end
+  end.
+Fixpoint mix_fix (a : arch) (base off term : Z) (fs : list mspec) : list mspec :=
+  match fs with
+  | [] => []
+  | f :: t =>
+      (match ms_tech f with
+       | TkFp => {| ms_tech := TkFp; ms_fill := removelast (ms_fill f) ++ [mix_need a base (off + ms_len f + 1) term t];
+                    ms_ra := ms_ra f |}
+       | _ => f
+       end) :: mix_fix a base (off + ms_len f + 1) term t
+  end.
+(* (context frame pointer, specs with the saved frame pointers filled in) *)
+Definition mix_built (archid base : Z) (l : list (Z * list Z * Z)) : Z * list mspec :=
   let a := arch_of archid in
-  let fs := mspecs_of l in
-  let '(r, v, _) := mix_layout a base ip0 gp0 fs in
-  (r, mix_words fs, map (fun f => (f_instr f, f_resume f, r_sp (f_regs f), trust_code (f_trust f))) (mix_chain a v gp0 base 0 fs)).
+  let fs0 := mspecs_of l in
+  let term := match a_fp a with FpAmd64 => base + a_pw a * (mix_total fs0 - 1) | _ => 0 end in
+  (mix_need a base 0 term fs0, mix_fix a base 0 term fs0).
+
+(* (context registers, stack words, expected chain as (instr, resume, sp, trust code, fp)) *)
+Definition layout_mix (archid base ip0 : Z) (gp0 : list Z) (l : list (Z * list Z * Z)) : regs * list Z * list (Z * Z * Z * Z * Z) :=
+  let a := arch_of archid in
+  let '(fp0, fs) := mix_built archid base l in
+  let '(r, v, _) := mix_layout a base ip0 fp0 gp0 fs in
+  (r, mix_words fs, map (fun f => (f_instr f, f_resume f, r_sp (f_regs f), trust_code (f_trust f), r_fp (f_regs f)))
+                        (mix_chain a v gp0 (Some fp0) base 0 fs)).
 
 (* the boolean precondition of the theorem, with the module lookup and instruction_seems_valid of the case's own modules *)
 Definition layout_mix_wf (archid base ip0 : Z) (mods : list modspec) (l : list (Z * list Z * Z)) : bool :=
-  mix_wf_layout (arch_of archid) (d_instr_valid mods) (d_module_at mods) base ip0 (mspecs_of l).
+  let '(fp0, fs) := mix_built archid base l in
+  mix_wf_layout (arch_of archid) (d_instr_valid mods) (d_module_at mods) base ip0 fp0 fs.
 
 (* the rule table of theorem c04_recovers_chain_rules read off the case's own modules: a module whose symbol file is of
    the family `STACK CFI INIT lo size .cfa: <sp> N + .ra: .cfa <pw> - ^` covers [x] with N *)
@@ -45,7 +77,7 @@ Definition rule_at_of (a : arch) (mods : list modspec) (x : Z) : option Z :=
   | _ => None
   end.
 Definition layout_mix_rules_ok (archid ip0 : Z) (mods : list modspec) (l : list (Z * list Z * Z)) : bool :=
-  rules_ok (arch_of archid) (rule_at_of (arch_of archid) mods) ip0 (mspecs_of l).
+  rules_ok (arch_of archid) (rule_at_of (arch_of archid) mods) ip0 (mspecs_of l).   (* does not look at the fill words *)
 
 Fixpoint zlist_eqb (l1 l2 : list Z) : bool :=
   match l1, l2 with [], [] => true | x :: t1, y :: t2 => (x =? y) && zlist_eqb t1 t2 | _, _ => false end.
@@ -62,9 +94,9 @@ Fixpoint frames_eqb (l1 l2 : list frame) : bool :=
    chain of the theorem (computed, both profiles): the executable face of c04_recovers_chain_rules on this case *)
 Definition layout_mix_rules_walk (archid os base ip0 : Z) (gp0 : list Z) (mods : list modspec) (l : list (Z * list Z * Z)) : bool :=
   let a := arch_of archid in
-  let fs := mspecs_of l in
-  let '(r, v, mem) := mix_layout a base ip0 gp0 fs in
-  let want := from_context r v TContext :: mix_chain a v gp0 base 0 fs in
+  let '(fp0, fs) := mix_built archid base l in
+  let '(r, v, mem) := mix_layout a base ip0 fp0 gp0 fs in
+  let want := from_context r v TContext :: mix_chain a v gp0 (Some fp0) base 0 fs in
   let one (p : profile) :=
     match walk_stack current_code p a os mem (d_module_at mods) (d_max_module_addr mods)
                      (cfi_rules a mem (rule_at_of a mods)) (d_instr_valid mods) (fuel_for mem) r v with
